@@ -174,7 +174,18 @@ func MapOrder(scopeEntries ...string) Rule {
 		}
 		r.Count("map_range_loops", nLoops)
 		r.Count("map_range_early_exits", nExits)
-		r.Floor("map_range_loops", 30)
+		specScope := false
+		for _, e := range scopeEntries {
+			if strings.Contains(e, "SpecValidator") {
+				specScope = true
+			}
+		}
+		if specScope {
+			r.Floor("map_range_loops", 30)
+			r.Floor("order_tainted_lists_rendered", 2)
+		} else {
+			r.Floor("map_range_loops", 8)
+		}
 		orderTaint(p, r, reach)
 		r.Note("MAP-ORDER: %d map ranges in %d functions reachable from %v, %d with early exits", nLoops, len(reach), scopeEntries, nExits)
 	}
@@ -352,7 +363,6 @@ func orderTaint(p *core.Prog, r *core.Report, reach map[*ssa.Function]bool) {
 		})
 	}
 	r.Count("order_tainted_lists_rendered", n)
-	r.Floor("order_tainted_lists_rendered", 2)
 }
 
 func fromTaintedElem(v ssa.Value, t map[ssa.Value]bool, d int) bool {
